@@ -556,6 +556,9 @@ func (db *DB) Load(es []Entry) {
 		default:
 			continue
 		}
+		if v.empty() {
+			continue // an empty container is not a key
+		}
 		db.Keys[e.Key] = v
 	}
 }
